@@ -46,12 +46,18 @@ Definition mesh1 (i : inp) : bool :=
   | _ => false
   end.
 
+Definition has_linear (ss : list scheme) : bool :=
+  existsb (fun s => match s with SLinear => true | SNearest => false end) ss.
+
+(* integer / string values: only index-based evaluation is defined.  The per-axis evaluator
+   does arithmetic on the values (TypeError) -- for all-'nearest' schemes that is the recorded
+   defect [k_int_raises]; once repaired, all-'nearest' per-axis evaluation returns node values. *)
 Definition expected (k : case) : outc :=
   if k_mesh1_raises k && mesh1 (k_inp k) then OValueErr
   else match k_kind k, k_dt k with
   | KNearest, _ => OVals (run k (k_vre k)) (if k_cplx k then run k (k_vim k) else [])
-  | _, DInt => if k_int_raises k then OTypeErr else OVals (run k (k_vre k)) []
-  | _, DStr => OTypeErr
+  | _, DInt | _, DStr =>
+      if k_int_raises k || has_linear (schemes_of k) then OTypeErr else OVals (run k (k_vre k)) []
   | _, DFloat =>
       if degenerate (schemes_of k) (k_cvs k) then ONonFinite
       else OVals (run k (k_vre k)) (if k_cplx k then run k (k_vim k) else [])
